@@ -72,6 +72,20 @@ def seen (init : List (Entry φ α)) (batches : List (List (Entry φ α))) : Lis
 /-- all evaluated candidates, newest batch first -/
 def evaluated (batches : List (List (Entry φ α))) : List (Entry φ α) := seen [] batches
 
+/-- remove the members of `res` (with multiplicity) from `all`; `none` if one is missing -/
+def subtract [DecidableEq φ] [DecidableEq α] : List (Entry φ α) → List (Entry φ α) → Option (List (Entry φ α))
+  | all, [] => some all
+  | all, x :: xs => if x ∈ all then subtract (all.erase x) xs else none
+
+/-- executable form of the specification `IsTopK` (Lemmas/TopK.lean): `res` has `k` entries, all
+taken from `all` with multiplicity, and nothing left over has a larger reward than a member of
+`res`.  This is the predicate the harness evaluates on the REAL result. -/
+def isTopKB [DecidableEq φ] [DecidableEq α] (le : α → α → Bool) (k : Nat) (all res : List (Entry φ α)) : Bool :=
+  decide (res.length = k) &&
+    match subtract all res with
+    | none => false
+    | some rest => res.all fun x => rest.all fun y => le y.reward x.reward
+
 /-! ## features, layouts, masks -/
 
 /-- one candidate: continuous features (carrier `ρ`) and categorical features (indices) -/
